@@ -363,7 +363,9 @@ def drive(case):
         if api and omit_of[r['request-id']]:
             # the same request with its optional fields spelled out
             obs['alone_explicit'][r['request-id']] = one('alone-explicit:' + r['request-id'], [r], explicit=True)
-    obs['runs'].append(one('batch', reqs))
+    with c13.AmpTracer(E.net) as tracer:
+        obs['runs'].append(one('batch', reqs))
+    obs['amp_traces'] = tracer.result()
     prng = random.Random(case['perm_seed'])
     for k in range(3):
         p = reqs[:]
@@ -376,11 +378,13 @@ def drive(case):
     rq.deepcopy = lambda x: x
     try:
         try:
-            s2 = runner(E2, reqs)
+            with c13.AmpTracer(E2.net) as tracer2:
+                s2 = runner(E2, reqs)
         except Exception as e:
             s2 = {'exc': type(e).__name__}
     finally:
         rq.deepcopy = orig
+    obs['amp_traces_nocopy'] = tracer2.result()
     j21, d21 = snapshot(E2.net)
     obs['nocopy'] = {'sigs_differ': any(same_sig(s2.get(i), obs['runs'][0]['sigs'].get(i)) is not True for i in ids)
                      if 'exc' not in s2 else None,
@@ -531,7 +535,8 @@ def run(ctx):
     else:
         cases += [gen_case(rng) for _ in range(ctx.scale(70, 600))]
     terms, meta = [], []
-    for c, obs in zip(cases, pmap_drive(cases)):
+    all_obs = pmap_drive(cases)
+    for c, obs in zip(cases, all_obs):
         batch = obs['runs'][0]
         reasons = [s['reason'] for s in batch['sigs'].values()]
         nontriv = (any(r is None for r in reasons) and any(r is not None for r in reasons)) or bool(obs['nocopy']['net_changed'])
@@ -561,6 +566,23 @@ def run(ctx):
         terms.append(term(c, obs))
         meta.append((c, ok))
     lines = common.coq_eval('C16', 'Prelude Model.Verdict Model.Batch Run.C16', terms, per_file=ctx.scale(4, 12), tag='obs')
+    # amplifier state: with the per-request copy every amplifier object starts from the designed gain of its network
+    # element; without it (sensitivity run) the network's own amplifiers carry their clamp from request to request
+    amp_terms, amp_meta = [], []
+    for c, obs in zip(cases, all_obs):
+        for kind in ('amp_traces', 'amp_traces_nocopy'):
+            for t in obs.get(kind) or []:
+                amp_terms.append(c13.term_amp(t))
+                amp_meta.append((c, t, kind))
+    amp_lines = common.coq_eval('C16', 'Prelude Model.Verdict Run.C13', amp_terms, per_file=ctx.scale(150, 500),
+                                tag='amps')
+    for (c, t, kind), line in zip(amp_meta, amp_lines):
+        ctx.count('amplifier_histories_' + ('copy' if kind == 'amp_traces' else 'nocopy'))
+        if len(t['gains']) > 1 and kind == 'amp_traces_nocopy':
+            ctx.count('amplifier_shared_by_several_propagations')
+            if any(g < t['g0'] - 1e-9 for g in t['gains'][:-1]):
+                ctx.count('amplifier_clamp_carried_to_a_later_propagation')
+        c13.judge_amp(ctx, case_public(c), t, line, prop='Batch')
     for (c, ok), line in zip(meta, lines):
         verdict = line.split('|')[0] == 'T'
         if verdict != ok:
